@@ -22,7 +22,7 @@ TStep ==
           \/ e.cmd = "runscript" /\ RunScript /\ res'.ran = e.obs.ran /\ res'.fatal = e.obs.fatal
           \/ e.cmd = "runcode" /\ RunCode(e.a, e.b, e.c)
                /\ res'.ctx = e.obs.ctx /\ ((e.obs.ctx /\ ~e.obs.fatal) => res'.mode = e.obs.mode) /\ res'.fatal = e.obs.fatal
-          \/ e.cmd = "damagecode" /\ DamageCode(e.a, e.b)
+          \/ e.cmd = "damagecode" /\ DamageCode(e.a, e.c, e.b)
        /\ used' = IF res'.dev = "" THEN used ELSE used \cup {res'.dev}
   /\ l' = l + 1 /\ tid' = tid
 
